@@ -129,6 +129,9 @@ func fromModel(b map[string]any, idx int, salt int64) *caseSpec {
 			op.Fault = &faultSpec{Step: asString(fm["step"]), How: asString(fm["how"])}
 		}
 		switch op.Op {
+		case "Restart":
+			op.Plant = asString(m["plant"])
+			op.How = []string{"shutdown", "drop"}[idx%2]
 		case "Stage":
 			rs, _ := m["req"].([]any)
 			for _, r := range rs {
@@ -243,6 +246,42 @@ func faultCases(salt int64) []*caseSpec {
 					stage.Req = []reqSpec{{Path: path, C: t.content}}
 					cs.Ops = []opSpec{{Op: "Scan"}, stage, recv, {Op: "Trans", Chg: []chgSpec{chg}}}
 					out = append(out, cs)
+				}
+			}
+		}
+	}
+	return out
+}
+
+// restartCases: the endpoint object is replaced (same session, same data
+// directory) after files were committed to staging and before the transition
+// finalized the store - before the next Scan/Stage, or between Stage and
+// Transition - under every staging mode, with the leftover staging root kept,
+// emptied, or replaced by a file.
+func restartCases(salt int64) []*caseSpec {
+	var out []*caseSpec
+	req := []reqSpec{{Path: []string{"n"}, C: "c2"}, {Path: []string{"a"}, C: "c3"}, {Path: []string{"d", "x"}, C: "c2"}}
+	chg := []chgSpec{{Path: []string{"n"}, New: "c2"}, {Path: []string{"a"}, Old: "c1", New: "c3"}, {Path: []string{"d", "x"}, New: "c2"}}
+	scan, stage, trans := opSpec{Op: "Scan"}, opSpec{Op: "Stage", Req: req}, opSpec{Op: "Trans", Chg: chg}
+	recvAll := opSpec{Op: "Recv", Kinds: []string{"exact", "exact", "exact"}}
+	recvPart := opSpec{Op: "Recv", Kinds: []string{"exact", "corrupt", "abort0"}}
+	for _, sm := range []string{"", "neighboring", "internal"} {
+		for _, how := range []string{"shutdown", "drop"} {
+			for _, plant := range []string{"keep", "empty", "file"} {
+				re := opSpec{Op: "Restart", How: how, Plant: plant}
+				scripts := [][]opSpec{
+					// resume: everything was received, the new endpoint stages the same request again
+					{scan, stage, recvAll, re, scan, stage, recvAll, trans},
+					// resume after a partial reception
+					{scan, stage, recvPart, re, scan, stage, recvAll, scan, trans},
+					// restart between Stage and Transition: the new endpoint has neither scanned nor staged
+					{scan, stage, recvAll, re, trans, scan, trans, scan, stage, recvAll, trans},
+					// two restarts in a row, staging repeated without a scan in between
+					{scan, stage, recvAll, re, re, scan, stage, stage, recvAll, trans},
+				}
+				for _, ops := range scripts {
+					out = append(out, &caseSpec{Init: map[string]string{"a": "c1", "d/y": "c4"}, Max: Unlimited, Mode: "tws",
+						Src: "restart", Salt: salt, StageMode: sm, Ops: ops})
 				}
 			}
 		}
@@ -476,6 +515,16 @@ func randomCase(r *rand.Rand, salt int64) *caseSpec {
 			}
 			cs.Ops = append(cs.Ops, recv)
 		}
+		if r.Intn(7) == 0 { // the endpoint is replaced after the reception
+			re := opSpec{Op: "Restart", How: []string{"shutdown", "drop"}[r.Intn(2)], Plant: []string{"keep", "keep", "keep", "empty", "file"}[r.Intn(5)]}
+			cs.Ops = append(cs.Ops, re)
+			if r.Intn(3) != 0 { // ... and the cycle is resumed: scan, same staging request
+				cs.Ops = append(cs.Ops, opSpec{Op: "Scan"}, stage)
+				if r.Intn(4) != 0 {
+					cs.Ops = append(cs.Ops, opSpec{Op: "Recv"})
+				}
+			}
+		}
 		if r.Intn(6) == 0 {
 			extEdit() // between staging and transition
 		}
@@ -575,6 +624,11 @@ func runStaging(c *vlib.Ctx) error {
 		emit(cs)
 	}
 	c.SetExtra("io_fault_cases", len(fcs))
+	rcs := restartCases(c.Seed)
+	for _, cs := range rcs {
+		emit(cs)
+	}
+	c.SetExtra("restart_cases", len(rcs))
 	for i := 0; i < nrand; i++ {
 		emit(randomCase(c.Rand, c.Seed*100000+int64(i)))
 	}
